@@ -255,13 +255,13 @@ fn process_request_obj(request: &Request, dbs: &Arc<Databases>, client: &mut Cli
                             let mut user_name_state = client.selected_db.user_name.write().unwrap();
 
                             if is_valid_user_token(&token, &user_name, db) {
-                                let _ = std::mem::replace(&mut *db_name_state, Some(name.clone()));
+                                let previous_db =
+                                    std::mem::replace(&mut *db_name_state, Some(name.clone()));
                                 let _ = std::mem::replace(
                                     &mut *user_name_state,
                                     Some(user_name.clone()),
                                 );
-                                db.inc_connections(); //Increment the number of connections
-                                set_connection_counter(db, &dbs);
+                                move_connection(previous_db, &name, &dbs_map, &dbs);
                                 Response::Ok {}
                             } else {
                                 Response::Error {
@@ -272,9 +272,9 @@ fn process_request_obj(request: &Request, dbs: &Arc<Databases>, client: &mut Cli
                         None => {
                             if is_valid_token(&token, db) {
                                 let mut db_name_state = client.selected_db.name.write().unwrap();
-                                let _ = std::mem::replace(&mut *db_name_state, Some(name.clone()));
-                                db.inc_connections(); //Increment the number of connections
-                                set_connection_counter(db, &dbs);
+                                let previous_db =
+                                    std::mem::replace(&mut *db_name_state, Some(name.clone()));
+                                move_connection(previous_db, &name, &dbs_map, &dbs);
                                 Response::Ok {}
                             } else {
                                 Response::Error {
